@@ -25,7 +25,7 @@ import sympy as sp
 
 from ..core import norm, calls_in, kwarg, AnalysisError, string_dispatch, assigns_to, cmp_canon
 from ..symx import SymEval, Path, SymObj, PyStub, symarray, is_zero, equal, Opaque, WouldRaise, module_aliases, arr
-from .. import effects
+from .. import effects, dtypeflow
 
 SYS = 'atomman/core/System.py'
 MIL = 'atomman/tools/miller.py'
@@ -627,9 +627,14 @@ def preserve(ctx):
     ctx.floor('PRESERVE', len(cases), 5)
 
 
+def property_types(ctx):
+    """per-atom property values are carried into the supercell in buffers of their own element type"""
+    dtypeflow.same_type_buffers(ctx, 'PROPERTY-TYPES', SYS, 'System.supersize', 'self.atoms.view', floor=1)
+
+
 def run(ctx):
     from .c05 import normalize as normalize_rules
     ctx.explanation = ('C04: supersize is evaluated on a model system with symbolic positions and a tagged property (image set, counts, cell); the centering tables are extracted and checked in exact '
                        'rationals (inverse pairs, determinants, lattice points, integrality of the supercell indices); conversion wiring; rotate() guards and bounding multipliers by evaluation on symbolic '
                        'integer indices; anchoring of the cut-out cell; operand preservation; normalize as in C05. Not decided: that the atoms kept are the right ones for a concrete cell.')
-    ctx.run_rules([supersize, centering, conversion, rotate, origin_anchor, preserve, normalize_rules])
+    ctx.run_rules([supersize, property_types, centering, conversion, rotate, origin_anchor, preserve, normalize_rules])
